@@ -7,6 +7,9 @@
 //!   * the expected object graph is checked by a walk that is driven by the model (never by the library's walkers);
 //!   * /Title is decoded by a PDF text-string decoder written here (UTF-16BE with BOM / UTF-8 with BOM / PDFDocEncoding);
 //!   * the expected table of contents is the pre-order of the forest with level = depth + 1 and page = page number.
+//! Families: A all small call sequences, B titles, C Unicode sweep, D 250-bookmark extremes, E non-existent parent handles,
+//! F large level-regular forests (hundreds to thousands of bookmarks, of parents, of siblings; four call orders), G spines up to
+//! the deepest nesting the reader accepts. Parent handles are 32 bits wide, so a case is not limited to 255 calls.
 #![allow(dead_code)]
 use crate::common::*;
 use crate::gen::{dict, name, obj_eq};
@@ -19,8 +22,10 @@ use std::collections::{BTreeMap, HashSet};
 use std::sync::OnceLock;
 
 /// parent handle that no `add_bookmark` call ever returned
-const ORPHAN: u8 = 255;
-const ORPHAN_HANDLE: u32 = 1_000_000;
+const ORPHAN: u32 = u32::MAX;
+/// how ORPHAN was written in failing inputs recorded while handles were 8 bits wide (see `case_from_json`)
+const ORPHAN_LEGACY: u32 = 255;
+const ORPHAN_HANDLE: u32 = 1_000_000_000;
 const N_LAYOUTS: u8 = 4;
 
 #[derive(Clone, Debug)]
@@ -31,10 +36,12 @@ pub struct Case {
     /// 1..=3 pages
     pages: u8,
     /// parents[k]: 0 = top level, j (1..=k) = the handle returned by the j-th add_bookmark call, ORPHAN = a handle that does not exist
-    parents: Vec<u8>,
+    parents: Vec<u32>,
     /// targets[k]: 0 = zero page (0,g), t = page number t
     targets: Vec<u8>,
     titles: Vec<String>,
+    /// family F/G: the generator parameters this case was expanded from (what a failure records instead of the expansion)
+    origin: Option<Big>,
 }
 
 type Fail = (String, String);
@@ -348,7 +355,11 @@ fn check_structure(doc: &Document, root: ObjectId, case: &Case, m: &Model, page_
 }
 
 fn check_toc(doc: &Document, case: &Case, m: &Model, ob: &str) -> Result<(), Fail> {
-    let toc = match doc.get_toc() { Ok(t) => t, Err(e) => return fail(ob, format!("get_toc failed: {}", e)) };
+    let toc = match doc.get_toc() {
+        Ok(t) => t,
+        Err(e) => return fail(ob, format!("get_toc failed: {} (the forest has {} bookmarks in {} levels, {} of them top-level, {} with children, at most {} under one parent)", e, m.toc.len(),
+            m.toc.iter().map(|t| t.0).max().unwrap_or(0), m.roots.len(), (0..m.n).filter(|&k| m.reachable[k] && !m.children[k].is_empty()).count(), m.children.iter().map(|c| c.len()).max().unwrap_or(0))),
+    };
     if !toc.errors.is_empty() { return fail(ob, format!("get_toc reported errors: {:?}", toc.errors)); }
     let got: Vec<(usize, String, usize)> = toc.toc.iter().map(|t| (t.level, t.title.clone(), t.page)).collect();
     let want: Vec<(usize, String, usize)> = m.toc.iter().map(|&(l, k, p)| (l, case.titles[k].clone(), p)).collect();
@@ -378,12 +389,13 @@ fn check_case(c: &Case, stage: &Cell<&'static str>, soft: &mut Vec<Fail>) -> Res
     // 1. add the bookmarks
     stage.set("add_bookmark");
     let mut handles: Vec<u32> = vec![];
+    let mut handle_set: HashSet<u32> = HashSet::new();
     for k in 0..m.n {
         let page = if c.targets[k] == 0 { (0, if k % 2 == 0 { 0 } else { 7 }) } else { page_ids[c.targets[k] as usize - 1] };
         let color = if k % 2 == 0 { [0.0, 0.0, 0.0] } else { [1.0, 0.5, 0.25] };
         let parent = match c.parents[k] { 0 => None, ORPHAN => Some(ORPHAN_HANDLE), j => Some(handles[j as usize - 1]) };
         let h = doc.add_bookmark(Bookmark::new(c.titles[k].clone(), color, (k % 4) as u32, page), parent);
-        if h == 0 || handles.contains(&h) { return fail("bookmark-ids", format!("add_bookmark call {} returned handle {} (earlier handles {:?})", k + 1, h, handles)); }
+        if h == 0 || h == ORPHAN_HANDLE || !handle_set.insert(h) { return fail("bookmark-ids", format!("add_bookmark call {} returned handle {} (the {} earlier handles end with {:?})", k + 1, h, handles.len(), &handles[handles.len().saturating_sub(8)..])); }
         handles.push(h);
     }
     let before = doc.objects.clone();
@@ -506,12 +518,12 @@ fn alphabet() -> Vec<String> {
 }
 
 /// every sequence of parent choices: call k (0-based) may choose top level or any of the k earlier bookmarks (and ORPHAN)
-fn parent_seqs(n: usize, with_orphan: bool) -> Vec<Vec<u8>> {
-    let mut out: Vec<Vec<u8>> = vec![vec![]];
+fn parent_seqs(n: usize, with_orphan: bool) -> Vec<Vec<u32>> {
+    let mut out: Vec<Vec<u32>> = vec![vec![]];
     for k in 0..n {
         let mut next = vec![];
         for s in &out {
-            for p in 0..=k as u8 { let mut t = s.clone(); t.push(p); next.push(t); }
+            for p in 0..=k as u32 { let mut t = s.clone(); t.push(p); next.push(t); }
             if with_orphan { let mut t = s.clone(); t.push(ORPHAN); next.push(t); }
         }
         out = next;
@@ -520,7 +532,7 @@ fn parent_seqs(n: usize, with_orphan: bool) -> Vec<Vec<u8>> {
 }
 
 /// every assignment of target pages: any page 1..=pages, and the zero page for bookmarks that end up with a child
-fn target_assignments(parents: &[u8], pages: u8) -> Vec<Vec<u8>> {
+fn target_assignments(parents: &[u32], pages: u8) -> Vec<Vec<u8>> {
     let n = parents.len();
     let mut has_child = vec![false; n];
     for &p in parents { if p != 0 && p != ORPHAN { has_child[p as usize - 1] = true; } }
@@ -546,7 +558,7 @@ struct Skel { layout: u8, pages: u8, n: u8, parents: [u8; 8], targets: [u8; 8], 
 
 fn skel_case(s: &Skel, alpha: &[String]) -> Case {
     let n = s.n as usize;
-    Case { layout: s.layout, pages: s.pages, parents: s.parents[..n].to_vec(), targets: s.targets[..n].to_vec(), titles: rotate_titles(alpha, s.idx as usize, n) }
+    Case { layout: s.layout, pages: s.pages, parents: s.parents[..n].iter().map(|&p| p as u32).collect(), targets: s.targets[..n].to_vec(), titles: rotate_titles(alpha, s.idx as usize, n), origin: None }
 }
 
 /// A: structure x pages x target assignment x layout
@@ -563,7 +575,7 @@ fn family_shapes(thorough: bool) -> Vec<Skel> {
                     let layouts: Vec<u8> = if all_layouts { (0..N_LAYOUTS).collect() } else { vec![(idx % N_LAYOUTS as u32) as u8] };
                     for &layout in &layouts {
                         let mut s = Skel { layout, pages, n: n as u8, parents: [0; 8], targets: [0; 8], idx };
-                        s.parents[..n].copy_from_slice(&parents);
+                        for (k, &p) in parents.iter().enumerate() { s.parents[k] = p as u8; }
                         s.targets[..n].copy_from_slice(&targets);
                         cases.push(s);
                         idx += 1;
@@ -579,12 +591,12 @@ fn family_shapes(thorough: bool) -> Vec<Skel> {
 fn family_extremes() -> Vec<Case> {
     let alpha = alphabet();
     let n = 250usize;
-    let shapes: Vec<Vec<u8>> = vec![
-        (0..n).map(|k| k as u8).collect(),                                         // chain: bookmark k+1 under bookmark k
+    let shapes: Vec<Vec<u32>> = vec![
+        (0..n).map(|k| k as u32).collect(),                                        // chain: bookmark k+1 under bookmark k
         (0..n).map(|k| if k == 0 { 0 } else { 1 }).collect(),                       // star
         vec![0; n],                                                                // flat
-        (0..n).map(|k| ((k + 1) / 2) as u8).collect(),                             // binary tree (heap numbering)
-        (0..n).map(|k| if k % 2 == 0 { (k as u8).saturating_sub(1) } else { k as u8 }).collect(), // comb: spine 1,3,5,.. each with one leaf
+        (0..n).map(|k| ((k + 1) / 2) as u32).collect(),                            // binary tree (heap numbering)
+        (0..n).map(|k| if k % 2 == 0 { (k as u32).saturating_sub(1) } else { k as u32 }).collect(), // comb: spine 1,3,5,.. each with one leaf
     ];
     let mut cases = vec![];
     for parents in &shapes {
@@ -594,7 +606,7 @@ fn family_extremes() -> Vec<Case> {
             for layout in 0..N_LAYOUTS {
                 let targets: Vec<u8> = (0..n).map(|k| if zero && has_child[k] { 0 } else { (k % 3) as u8 + 1 }).collect();
                 let titles: Vec<String> = (0..n).map(|k| { let a: String = alpha[k % alpha.len()].chars().take(12).collect(); format!("{}#{}", a, k) }).collect();
-                cases.push(Case { layout, pages: 3, parents: parents.clone(), targets, titles });
+                cases.push(Case { layout, pages: 3, parents: parents.clone(), targets, titles, origin: None });
             }
         }
     }
@@ -602,7 +614,7 @@ fn family_extremes() -> Vec<Case> {
 }
 
 /// B: every ordered tuple of distinct alphabet titles on every forest of up to 3 bookmarks: (parents, title indices, idx)
-fn family_titles() -> Vec<(Vec<u8>, Vec<u8>, u32)> {
+fn family_titles() -> Vec<(Vec<u32>, Vec<u8>, u32)> {
     let a = alphabet().len() as u8;
     let mut cases = vec![];
     let mut idx = 0u32;
@@ -629,12 +641,12 @@ fn family_titles() -> Vec<(Vec<u8>, Vec<u8>, u32)> {
     cases
 }
 
-fn titles_case(t: &(Vec<u8>, Vec<u8>, u32), alpha: &[String]) -> Case {
+fn titles_case(t: &(Vec<u32>, Vec<u8>, u32), alpha: &[String]) -> Case {
     let (parents, tuple, idx) = t;
     let n = parents.len();
     let pages = 2u8;
     let targets: Vec<u8> = (0..n).map(|k| ((*idx as usize + k) % pages as usize) as u8 + 1).collect();
-    Case { layout: (idx % N_LAYOUTS as u32) as u8, pages, parents: parents.clone(), targets, titles: tuple.iter().map(|&t| alpha[t as usize].clone()).collect() }
+    Case { layout: (idx % N_LAYOUTS as u32) as u8, pages, parents: parents.clone(), targets, titles: tuple.iter().map(|&t| alpha[t as usize].clone()).collect(), origin: None }
 }
 
 fn family_orphans() -> Vec<Case> {
@@ -646,7 +658,7 @@ fn family_orphans() -> Vec<Case> {
         for parents in parent_seqs(n, true) {
             if !parents.contains(&ORPHAN) { continue; }
             for targets in target_assignments(&parents, 2) {
-                cases.push(Case { layout: (idx % N_LAYOUTS as usize) as u8, pages: 2, parents: parents.clone(), targets, titles: rotate_titles(&alpha, idx, n) });
+                cases.push(Case { layout: (idx % N_LAYOUTS as usize) as u8, pages: 2, parents: parents.clone(), targets, titles: rotate_titles(&alpha, idx, n), origin: None });
                 idx += 1;
             }
         }
@@ -692,11 +704,11 @@ fn sweep_case(sw: &Sweep) -> Case {
     let mut targets = vec![];
     for j in 0..n {
         let head = j - j % 8;
-        parents.push(match j % 8 { 0 => 0u8, 4 | 5 => j as u8, _ => head as u8 + 1 });
+        parents.push(match j % 8 { 0 => 0u32, 4 | 5 => j as u32, _ => head as u32 + 1 });
         // the heads of every other group of 8 are zero-page parents; within a group bookmarks 1, 4 and 5 have children
         targets.push(if j % 16 == 0 { 0 } else { (j % pages as usize) as u8 + 1 });
     }
-    Case { layout: (block % N_LAYOUTS as u32) as u8, pages, parents, targets, titles }
+    Case { layout: (block % N_LAYOUTS as u32) as u8, pages, parents, targets, titles, origin: None }
 }
 
 fn sweep_items(thorough: bool) -> Vec<Sweep> {
@@ -710,21 +722,241 @@ fn sweep_items(thorough: bool) -> Vec<Sweep> {
     v
 }
 
+// ---------------------------------------------------------------------------------------------------------------
+// F, G: large forests (the statement bounds neither the number of bookmarks nor the number of bookmarks with children,
+// of siblings, of top-level bookmarks; families A-E stop at 250 bookmarks)
+// ---------------------------------------------------------------------------------------------------------------
+
+/// the parameters of one large forest; a failure records these, `big_case` expands them
+#[derive(Clone, Debug, PartialEq)]
+pub enum Big {
+    /// F: level-regular forest: `fan[0]` top-level bookmarks; a bookmark of level i (1-based, i < fan.len()) whose position among its
+    /// siblings (0-based) is a multiple of `stride` has `fan[i]` children, every other bookmark is a leaf.
+    /// `order`: the order of the add_bookmark calls. 0 depth-first (a bookmark, then its whole subtree); 1 breadth-first (level by level,
+    /// parents in order); 2 level by level, the parents of a level taken from the last to the first; 3 level by level, round-robin over
+    /// the parents (the first child of every parent, then the second child of every parent, ...: siblings are not attached consecutively)
+    Regular { fan: Vec<u32>, stride: u32, order: u8, zero: bool, layout: u8 },
+    /// G: `levels` nested bookmarks (the spine); the siblings of the spine bookmark of each level are `before` leaves in front of it and
+    /// `after` leaves behind it; the calls go level by level
+    Spine { levels: u32, before: u32, after: u32, zero: bool, layout: u8 },
+}
+
+const N_ORDERS: u8 = 4;
+const NONE: usize = usize::MAX;
+
+/// number of bookmarks of a level-regular forest (None: more than `cap`)
+fn regular_size(fan: &[u32], stride: u32, cap: u64) -> Option<u64> {
+    let mut groups = 1u64;            // number of sibling lists in the current level
+    let mut len = fan[0] as u64;      // their common length
+    let mut total = len;
+    for &f in &fan[1..] {
+        if total > cap { return None; }
+        groups *= (len + stride as u64 - 1) / stride as u64;
+        len = f as u64;
+        total += groups * len;
+    }
+    if total > cap { None } else { Some(total) }
+}
+
+/// the add_bookmark calls of a level-regular forest: parents[k] as in `Case`
+fn regular_calls(fan: &[u32], stride: u32, order: u8) -> Vec<u32> {
+    // nodes are numbered level by level; levels[i] = the node range of level i
+    let mut parent: Vec<usize> = vec![NONE; fan[0] as usize];
+    let mut children: Vec<Vec<usize>> = vec![vec![]; fan[0] as usize];
+    let mut sib: Vec<u32> = (0..fan[0]).collect();
+    let mut levels: Vec<std::ops::Range<usize>> = vec![0..fan[0] as usize];
+    for &f in &fan[1..] {
+        let prev = levels.last().unwrap().clone();
+        let start = parent.len();
+        for p in prev {
+            if sib[p] % stride != 0 { continue; }
+            for j in 0..f {
+                let id = parent.len();
+                parent.push(p);
+                children.push(vec![]);
+                sib.push(j);
+                children[p].push(id);
+            }
+        }
+        levels.push(start..parent.len());
+    }
+    let n = parent.len();
+    let mut seq: Vec<usize> = Vec::with_capacity(n);
+    match order {
+        0 => {
+            let mut stack: Vec<usize> = levels[0].clone().rev().collect();
+            while let Some(x) = stack.pop() {
+                seq.push(x);
+                for &c in children[x].iter().rev() { stack.push(c); }
+            }
+        }
+        1 => seq.extend(0..n),
+        2 => {
+            seq.extend(levels[0].clone());
+            for i in 1..levels.len() { for p in levels[i - 1].clone().rev() { seq.extend(children[p].iter().cloned()); } }
+        }
+        _ => {
+            seq.extend(levels[0].clone());
+            for i in 1..levels.len() {
+                for r in 0..fan[i] as usize { for p in levels[i - 1].clone() { if let Some(&c) = children[p].get(r) { seq.push(c); } } }
+            }
+        }
+    }
+    assert_eq!(seq.len(), n);
+    let mut pos = vec![NONE; n];
+    for (k, &x) in seq.iter().enumerate() { pos[x] = k; }
+    seq.iter().enumerate().map(|(k, &x)| if parent[x] == NONE { 0 } else { assert!(pos[parent[x]] < k); pos[parent[x]] as u32 + 1 }).collect()
+}
+
+fn spine_calls(levels: u32, before: u32, after: u32) -> Vec<u32> {
+    let mut parents = vec![];
+    let mut up = 0u32;
+    for _ in 0..levels {
+        for _ in 0..before { parents.push(up); }
+        parents.push(up);
+        let spine = parents.len() as u32;
+        for _ in 0..after { parents.push(up); }
+        up = spine;
+    }
+    parents
+}
+
+fn big_case(b: &Big, alpha: &[String]) -> Case {
+    let (parents, zero, layout) = match b {
+        Big::Regular { fan, stride, order, zero, layout } => (regular_calls(fan, (*stride).max(1), *order), *zero, *layout),
+        Big::Spine { levels, before, after, zero, layout } => (spine_calls(*levels, *before, *after), *zero, *layout),
+    };
+    let n = parents.len();
+    let pages = 3u8;
+    let mut has_child = vec![false; n];
+    for &p in &parents { if p != 0 { has_child[p as usize - 1] = true; } }
+    let targets: Vec<u8> = (0..n).map(|k| if zero && has_child[k] { 0 } else { (k % pages as usize) as u8 + 1 }).collect();
+    // pairwise distinct because of the call number; the alphabet prefix keeps every kind of title in play
+    let titles: Vec<String> = (0..n).map(|k| { let a: String = alpha[k % alpha.len()].chars().take(12).collect(); format!("{}#{}", a, k) }).collect();
+    Case { layout, pages, parents, targets, titles, origin: Some(b.clone()) }
+}
+
+/// fan-out values: small ones, and the neighbourhood of 2^8 (the reader's nesting limit is 2^8 levels below the top one, so this is where a
+/// count that is confused with the nesting level shows), thorough also 2^10
+fn fan_values(thorough: bool) -> Vec<u32> {
+    if thorough { vec![1, 2, 3, 17, 256, 257, 300, 1024] } else { vec![1, 2, 3, 17, 256, 257, 300] }
+}
+
+/// F: every fan-out profile over `fan_values` with at most `max_levels` levels and at most `cap` bookmarks x stride 1, 2 x the 4 call orders
+/// x {all real pages, every parent a zero page}; layouts in rotation
+fn family_regular(thorough: bool) -> Vec<Big> {
+    let vals = fan_values(thorough);
+    let (max_levels, cap) = if thorough { (4usize, 2100u64) } else { (3usize, 1300u64) };
+    let mut profiles: Vec<Vec<u32>> = vec![];
+    let mut frontier: Vec<Vec<u32>> = vals.iter().map(|&v| vec![v]).collect();
+    for _ in 0..max_levels {
+        let mut next = vec![];
+        for f in frontier {
+            // stride 1 is the larger forest: a profile that is too large with stride 2 is too large with stride 1
+            if regular_size(&f, 2, cap).is_none() { continue; }
+            for &v in &vals { let mut g = f.clone(); g.push(v); next.push(g); }
+            profiles.push(f);
+        }
+        frontier = next;
+    }
+    let mut out = vec![];
+    let mut idx = 0u32;
+    for fan in &profiles {
+        for stride in [1u32, 2] {
+            if regular_size(fan, stride, cap).is_none() { continue; }
+            // in a sibling list of length 1 the strides do not differ
+            if stride == 2 && fan[..fan.len() - 1].iter().all(|&f| f == 1) { continue; }
+            for order in 0..N_ORDERS {
+                // a flat list has one call order
+                if fan.len() == 1 && order != 0 { continue; }
+                for zero in [false, true] {
+                    if fan.len() == 1 && zero { continue; }
+                    out.push(Big::Regular { fan: fan.clone(), stride, order, zero, layout: (idx % N_LAYOUTS as u32) as u8 });
+                    idx += 1;
+                }
+            }
+        }
+    }
+    out
+}
+
+/// F (thorough): three forests beyond 2^16 bookmarks: 65,537 top-level bookmarks; 65,537 siblings under one zero-page parent; 257 parents of
+/// 256 children each attached round-robin. (Loading a saved file of this size takes seconds, so this is a handful of cases.)
+fn family_regular_huge() -> Vec<Big> {
+    vec![
+        Big::Regular { fan: vec![65_537], stride: 1, order: 0, zero: false, layout: 0 },
+        Big::Regular { fan: vec![1, 65_537], stride: 1, order: 0, zero: true, layout: 1 },
+        Big::Regular { fan: vec![257, 256], stride: 1, order: 3, zero: true, layout: 2 },
+    ]
+}
+
+/// the deepest nesting the reader accepts: the top level and OUTLINE_DEPTH_LIMIT = 256 levels below it
+const MAX_LEVELS: u32 = 257;
+
+/// G: spines of 2, 17, 256 and 257 levels x 0..2 leaves in front of and behind the spine bookmark of every level x zero pages x 4 layouts
+fn family_spines() -> Vec<Big> {
+    let mut out = vec![];
+    for levels in [2u32, 17, 256, MAX_LEVELS] {
+        for before in 0..=2u32 { for after in 0..=2u32 { for zero in [false, true] { for layout in 0..N_LAYOUTS {
+            out.push(Big::Spine { levels, before, after, zero, layout });
+        } } } }
+    }
+    out
+}
+
+fn big_json(b: &Big) -> Value {
+    match b {
+        Big::Regular { fan, stride, order, zero, layout } => json!({"family": "F", "fan": fan, "stride": stride, "order": order, "zero": zero, "layout": layout}),
+        Big::Spine { levels, before, after, zero, layout } => json!({"family": "G", "levels": levels, "before": before, "after": after, "zero": zero, "layout": layout}),
+    }
+}
+
+fn big_from_json(g: &Value) -> Result<Big, String> {
+    let num = |k: &str| -> Result<u32, String> { g[k].as_u64().map(|x| x as u32).ok_or(format!("gen: missing {}", k)) };
+    let zero = g["zero"].as_bool().unwrap_or(false);
+    let layout = num("layout")? as u8;
+    match g["family"].as_str() {
+        Some("F") => {
+            let fan: Vec<u32> = g["fan"].as_array().ok_or("gen: missing fan")?.iter().map(|x| x.as_u64().map(|x| x as u32).ok_or("gen: bad fan".to_string())).collect::<Result<_, _>>()?;
+            if fan.is_empty() { return Err("gen: empty fan".into()); }
+            let stride = num("stride")?.max(1);
+            if regular_size(&fan, stride, 1 << 22).is_none() { return Err("gen: forest too large".into()); }
+            Ok(Big::Regular { fan, stride, order: num("order")? as u8, zero, layout })
+        }
+        Some("G") => Ok(Big::Spine { levels: num("levels")?, before: num("before")?, after: num("after")?, zero, layout }),
+        _ => Err("gen: unknown family".into()),
+    }
+}
+
 pub fn case_json(c: &Case) -> Value {
+    if let Some(b) = &c.origin {
+        // the expansion is a function of the parameters (big_case); record the parameters and enough of the expansion to read the failure
+        let n = c.parents.len();
+        let interior = { let mut h = vec![false; n]; for &p in &c.parents { if p != 0 && p != ORPHAN { h[p as usize - 1] = true; } } h.iter().filter(|&&x| x).count() };
+        return json!({"gen": big_json(b), "pages": c.pages, "bookmarks": n, "bookmarks_with_children": interior,
+                      "top_level_bookmarks": c.parents.iter().filter(|&&p| p == 0).count(),
+                      "first_parents": &c.parents[..n.min(24)], "first_targets": &c.targets[..n.min(24)],
+                      "first_titles_readable": c.titles.iter().take(6).map(|t| t.escape_debug().to_string()).collect::<Vec<_>>()});
+    }
     json!({"layout": c.layout, "pages": c.pages, "parents": c.parents, "targets": c.targets,
            "titles": c.titles.iter().map(|t| hex(t.as_bytes())).collect::<Vec<_>>(),
            "titles_readable": c.titles.iter().map(|t| { let mut s = t.escape_debug().to_string(); if s.len() > 40 { s = format!("{}...({} chars)", s.chars().take(20).collect::<String>(), t.chars().count()); } s }).collect::<Vec<_>>()})
 }
 
 pub fn case_from_json(v: &Value) -> Result<Case, String> {
-    let nums = |k: &str| -> Result<Vec<u8>, String> { v[k].as_array().ok_or(format!("missing {}", k))?.iter().map(|x| x.as_u64().map(|x| x as u8).ok_or(format!("bad {}", k))).collect() };
+    if v.get("gen").map(|g| g.is_object()).unwrap_or(false) { return Ok(big_case(&big_from_json(&v["gen"])?, &alphabet())); }
+    let nums = |k: &str| -> Result<Vec<u64>, String> { v[k].as_array().ok_or(format!("missing {}", k))?.iter().map(|x| x.as_u64().ok_or(format!("bad {}", k))).collect() };
     let titles = v["titles"].as_array().ok_or("missing titles")?.iter().map(|t| String::from_utf8(unhex(t.as_str().unwrap_or(""))).map_err(|_| "title is not UTF-8".to_string())).collect::<Result<Vec<_>, _>>()?;
-    Ok(Case { layout: v["layout"].as_u64().unwrap_or(0) as u8, pages: v["pages"].as_u64().unwrap_or(1) as u8, parents: nums("parents")?, targets: nums("targets")?, titles })
+    // 255 at a call k < 255 cannot be the handle of an earlier call: it is how the non-existent handle was recorded while handles were 8 bits wide
+    let parents: Vec<u32> = nums("parents")?.iter().enumerate().map(|(k, &p)| if p >= ORPHAN as u64 || (p == ORPHAN_LEGACY as u64 && k < ORPHAN_LEGACY as usize) { ORPHAN } else { p as u32 }).collect();
+    let targets: Vec<u8> = nums("targets")?.iter().map(|&t| t.min(255) as u8).collect();
+    Ok(Case { layout: v["layout"].as_u64().unwrap_or(0) as u8, pages: v["pages"].as_u64().unwrap_or(1) as u8, parents, targets, titles, origin: None })
 }
 
 fn describe(c: &Case) -> String {
+    if let Some(b) = &c.origin { return format!("{} -> {} bookmarks, pages={}", big_json(b), c.parents.len(), c.pages); }
     let t: Vec<String> = c.titles.iter().take(6).map(|t| t.escape_debug().to_string().chars().take(16).collect()).collect();
-    format!("layout={} pages={} parents={:?} targets={:?} titles={:?}{}", c.layout, c.pages, &c.parents[..c.parents.len().min(12)], &c.targets[..c.targets.len().min(12)], t, if c.titles.len() > 6 { " ..." } else { "" })
+    format!("layout={} pages={} parents={:?} targets={:?} titles={:?}{}", c.layout, c.pages, c.parents.iter().take(12).map(|&p| if p == ORPHAN { -1 } else { p as i64 }).collect::<Vec<_>>(), &c.targets[..c.targets.len().min(12)], t, if c.titles.len() > 6 { " ..." } else { "" })
 }
 
 fn evaluate<T: Sync>(rep: &mut Report, items: &[T], make: impl Fn(&T) -> Case + Sync, sample_every: usize) {
@@ -744,13 +976,16 @@ fn evaluate<T: Sync>(rep: &mut Report, items: &[T], make: impl Fn(&T) -> Case + 
     }
 }
 
-const BOUND_COMMON: &str = "B: every ordered tuple of distinct titles from a 23-title alphabet (empty, 1 character, delimiters, CR/LF, control characters, Latin-1, BMP, astral, noncharacters, characters whose UTF-16BE bytes are ( ) \\ CR LF, BOM character, combining sequence, 300 characters) on every forest of <=3 bookmarks; D: 250 bookmarks as chain / star / flat list / binary tree / comb x {all real pages, every parent a zero page} x 4 layouts; E: n<=4 calls where any call may name a parent handle that was never returned (the bookmark and everything below it is not part of the forest) x every target assignment, 2 pages. Layouts: dense ids + xref stream / sparse ids with page ids opposite to page order and max_id slack / nested page tree with non-zero generations / base document loaded from a file. Each case: add_bookmark calls, adjust_zero_pages, build_outline, model-driven walk of the object graph (First Last Next Prev Parent Title A/D, fresh ids), /Outlines installed, get_toc, save_to, load_mem, walk and get_toc again. Not covered: children lists written directly into Bookmark.children (cycles, shared nodes), max_id below an existing object id, duplicate titles, zero-page leaves";
+const BOUND_COMMON: &str = "B: every ordered tuple of distinct titles from a 23-title alphabet (empty, 1 character, delimiters, CR/LF, control characters, Latin-1, BMP, astral, noncharacters, characters whose UTF-16BE bytes are ( ) \\ CR LF, BOM character, combining sequence, 300 characters) on every forest of <=3 bookmarks; D: 250 bookmarks as chain / star / flat list / binary tree / comb x {all real pages, every parent a zero page} x 4 layouts; E: n<=4 calls where any call may name a parent handle that was never returned (the bookmark and everything below it is not part of the forest) x every target assignment, 2 pages; G: spines of 2 / 17 / 256 / 257 nested bookmarks (257 levels = the deepest outline get_outlines accepts: its nesting limit is 256 levels below the top one) x 0..2 leaf siblings in front of and 0..2 behind the spine bookmark of every level x {all real pages, every parent a zero page} x 4 layouts, up to 1285 bookmarks. Layouts: dense ids + xref stream / sparse ids with page ids opposite to page order and max_id slack / nested page tree with non-zero generations / base document loaded from a file. Each case: add_bookmark calls, adjust_zero_pages, build_outline, model-driven walk of the object graph (First Last Next Prev Parent Title A/D, fresh ids), /Outlines installed, get_toc, save_to, load_mem, walk and get_toc again. Not covered: children lists written directly into Bookmark.children (cycles, shared nodes), max_id below an existing object id, duplicate titles, zero-page leaves, outlines nested deeper than 257 levels (get_outlines refuses them by design), large forests that are not level-regular or spines";
+
+const BOUND_F_QUICK: &str = "F (large forests; sizes, numbers of bookmarks with children, of siblings and of top-level bookmarks on both sides of 256): every level-regular forest with a fan-out profile (f1..fd), d<=3, fi in {1,2,3,17,256,257,300}, at most 1300 bookmarks (f1 top-level bookmarks; a bookmark of level i has f(i+1) children if its position among its siblings is a multiple of the stride, else none) x stride 1 (every bookmark above the last level has children) and 2 (leaves and parents alternate) x 4 orders of the add_bookmark calls (depth-first / level by level / level by level with the parents taken last to first / level by level round-robin over the parents, so that siblings are not attached consecutively) x {all real pages, every parent a zero page}, 3 pages, layouts in rotation, titles = alphabet of B in rotation + call number;";
+const BOUND_F_THOROUGH: &str = "F (large forests; sizes, numbers of bookmarks with children, of siblings and of top-level bookmarks on both sides of 256 and 1024): every level-regular forest with a fan-out profile (f1..fd), d<=4, fi in {1,2,3,17,256,257,300,1024}, at most 2100 bookmarks (f1 top-level bookmarks; a bookmark of level i has f(i+1) children if its position among its siblings is a multiple of the stride, else none) x stride 1 (every bookmark above the last level has children) and 2 (leaves and parents alternate) x 4 orders of the add_bookmark calls (depth-first / level by level / level by level with the parents taken last to first / level by level round-robin over the parents, so that siblings are not attached consecutively) x {all real pages, every parent a zero page}, 3 pages, layouts in rotation, titles = alphabet of B in rotation + call number; and three forests beyond 2^16 bookmarks: profile (65537) = 65,537 top-level bookmarks; (1,65537) = 65,537 siblings under one zero-page parent; (257,256) = 66,049 bookmarks attached round-robin, zero-page parents;";
 
 pub fn run(thorough: bool) -> Report {
     let bound = if thorough {
-        format!("A: every sequence of n<=6 add_bookmark calls (call k attaches to the top level or to any of the k-1 earlier bookmarks: n! sequences = every ordered forest in every attachment order) x documents of 1..3 pages (n=6: 1..2) x every target assignment (each bookmark: any page, or the zero page if it has a child) x 4 document layouts, titles rotated through the alphabet of B; C: every Unicode scalar value c (1,112,064) as the titles \"c\" and \"[c]\", 64 values per document of 128 bookmarks (depth 3, zero-page parents); {}", BOUND_COMMON)
+        format!("A: every sequence of n<=6 add_bookmark calls (call k attaches to the top level or to any of the k-1 earlier bookmarks: n! sequences = every ordered forest in every attachment order) x documents of 1..3 pages (n=6: 1..2) x every target assignment (each bookmark: any page, or the zero page if it has a child) x 4 document layouts, titles rotated through the alphabet of B; C: every Unicode scalar value c (1,112,064) as the titles \"c\" and \"[c]\", 64 values per document of 128 bookmarks (depth 3, zero-page parents); {} {}", BOUND_F_THOROUGH, BOUND_COMMON)
     } else {
-        format!("A: every sequence of n<=5 add_bookmark calls (call k attaches to the top level or to any of the k-1 earlier bookmarks: n! sequences = every ordered forest in every attachment order) x documents of 1..3 pages (n=5: 1..2) x every target assignment (each bookmark: any page, or the zero page if it has a child) x 4 document layouts (n=5: one layout per case in rotation), titles rotated through the alphabet of B; C: every BMP scalar value c (63,488) as the titles \"c\" and \"[c]\", 64 values per document of 128 bookmarks (depth 3, zero-page parents), and every astral scalar value (1,048,576) inside a title of 4 consecutive values, 512 values per document; {}", BOUND_COMMON)
+        format!("A: every sequence of n<=5 add_bookmark calls (call k attaches to the top level or to any of the k-1 earlier bookmarks: n! sequences = every ordered forest in every attachment order) x documents of 1..3 pages (n=5: 1..2) x every target assignment (each bookmark: any page, or the zero page if it has a child) x 4 document layouts (n=5: one layout per case in rotation), titles rotated through the alphabet of B; C: every BMP scalar value c (63,488) as the titles \"c\" and \"[c]\", 64 values per document of 128 bookmarks (depth 3, zero-page parents), and every astral scalar value (1,048,576) inside a title of 4 consecutive values, 512 values per document; {} {}", BOUND_F_QUICK, BOUND_COMMON)
     };
     let mut rep = Report::new(&bound, true);
     rep.obligations = OBLIGATIONS.len() as u64;
@@ -759,26 +994,38 @@ pub fn run(thorough: bool) -> Report {
     let prev = std::panic::take_hook();
     std::panic::set_hook(Box::new(|_| {}));
     let timing = std::env::var("C17_TIMING").is_ok();
+    // development aid: C17_ONLY=FG runs only the named families
+    let only = std::env::var("C17_ONLY").ok();
+    let want = |f: char| only.as_ref().map(|o| o.contains(f)).unwrap_or(true);
     let t0 = std::time::Instant::now();
-    let a = family_shapes(thorough);
+    let a = if want('A') { family_shapes(thorough) } else { vec![] };
     evaluate(&mut rep, &a, |s| skel_case(s, &alpha), 20_001);
     if timing { eprintln!("A {} {:?}", a.len(), t0.elapsed()); }
     drop(a);
-    let b = family_titles();
+    let b = if want('B') { family_titles() } else { vec![] };
     evaluate(&mut rep, &b, |t| titles_case(t, &alpha), 30_001);
     if timing { eprintln!("B {} {:?}", b.len(), t0.elapsed()); }
     drop(b);
-    let d = family_extremes();
+    let d = if want('D') { family_extremes() } else { vec![] };
     evaluate(&mut rep, &d, |c| c.clone(), 1_000_000);
     if timing { eprintln!("D {} {:?}", d.len(), t0.elapsed()); }
     drop(d);
-    let e = family_orphans();
+    let e = if want('E') { family_orphans() } else { vec![] };
     evaluate(&mut rep, &e, |c| c.clone(), 2_001);
     if timing { eprintln!("E {} {:?}", e.len(), t0.elapsed()); }
     drop(e);
-    let c = sweep_items(thorough);
+    let c = if want('C') { sweep_items(thorough) } else { vec![] };
     evaluate(&mut rep, &c, sweep_case, 5_001);
     if timing { eprintln!("C {} {:?}", c.len(), t0.elapsed()); }
+    drop(c);
+    let mut f = if thorough && want('H') { family_regular_huge() } else { vec![] };
+    if want('F') { f.extend(family_regular(thorough)); }
+    evaluate(&mut rep, &f, |b| big_case(b, &alpha), 1_001);
+    if timing { eprintln!("F {} {:?}", f.len(), t0.elapsed()); }
+    drop(f);
+    let g = if want('G') { family_spines() } else { vec![] };
+    evaluate(&mut rep, &g, |b| big_case(b, &alpha), 101);
+    if timing { eprintln!("G {} {:?}", g.len(), t0.elapsed()); }
     std::panic::set_hook(prev);
     rep
 }
